@@ -44,7 +44,13 @@ def main():
         dd = tempfile.mkdtemp(prefix='evbd.', dir='/tmp')
         shutil.copy(digest, os.path.join(dd, 'digest.py'))
         rc0, out0 = sh('%s digest.py' % PY, cwd=dd, env={'PYTHONPATH': wt})
-        d0 = out0.strip().splitlines()[-1] if out0.strip() else ''
+        import re as _re
+
+        def _digest_line(out):
+            # the digest is the line that is a sha256 hex string (a program may add a count on stderr)
+            hexes = [l.strip() for l in out.strip().splitlines() if _re.fullmatch(r'[0-9a-f]{64}', l.strip())]
+            return hexes[-1] if hexes else (out.strip().splitlines()[-1] if out.strip() else '')
+        d0 = _digest_line(out0)
         shutil.rmtree(os.path.join(dd, '__pkts__'), ignore_errors=True)
         rc, out = sh('git -C %s apply --whitespace=nowarn %s' % (wt, patch))
         res['applies'] = rc == 0
@@ -53,7 +59,7 @@ def main():
         rc, out = sh('%s -m pytest -q -p no:cacheprovider tests' % PY, cwd=wt, env={'PYTHONPATH': wt})
         res['tests_pass'] = rc == 0 and '40 passed' in out
         rc1, out1 = sh('%s digest.py' % PY, cwd=dd, env={'PYTHONPATH': wt})
-        d1 = out1.strip().splitlines()[-1] if out1.strip() else ''
+        d1 = _digest_line(out1)
         shutil.rmtree(dd, ignore_errors=True)
         res['digest_pristine'], res['digest_refactored'] = d0[-64:], d1[-64:]
         res['digest_equal'] = rc0 == 0 and rc1 == 0 and d0 == d1 and len(d0) >= 32
